@@ -456,6 +456,11 @@ def run_spelling_fixture(fx, seed, bad, stats):
             k, rel = route
             exp = fsops.execute(twins[accepted[k]], op_with_path(o, rel))
             want = [accepted[k]]
+            if o[0] == "getinfo" and rel in ("", "/") and exp.startswith("ok:(s|"):
+                # a mount point is named as in the directory that lists it (documented rule; /repo c991532)
+                nm = P.basename(P.abspath(P.normpath(o[1])))
+                if nm:
+                    exp = "ok:(" + fsops.r_str(nm) + exp[len("ok:(s"):]
         stray = [t for t in touched if t not in want]
         if stray:
             bad.append(("a filesystem other than the routed one was touched", c2, res,
@@ -1073,6 +1078,9 @@ def run(report):
                spelling_classes=[n for n, _ in SPELLINGS],
                pending_findings_seen=pending_seen,
                traces_validated_against_impl=total - len(bad))
+    # state models of MultiFS / MountFS over the MemoryFS model (Route/Composite*.v): outcome and every member tree per call
+    import h_composite
+    cov.update(h_composite.run_composite_checks(report, random.Random(report.seed + 1700), report.tier))
     return report.finish(proof, cov, assumptions=[
         "derived calls (move/copy/movedir/copydir/removetree/makedirs) may touch every member their path arguments "
         "route to; members are MemoryFS instances behind recording WrapFS proxies",
@@ -1098,5 +1106,8 @@ def run(report):
 def replay(report, path):
     with open(path) as fh:
         d = json.load(fh)
+    if d.get("kind") == "composite-differs-from-model":
+        import h_composite
+        return h_composite.replay_composite(d)
     print(json.dumps(d, indent=1)[:3000])
     return 1
